@@ -315,7 +315,9 @@ CLAIMED = {
         "cycle_vectors_step (from the bytes: the records `LEB128 distance, value byte` of a cycle that address elements of std_logic / bit "
         "vectors make exactly those per-bit updates, in file order, signal index = running sum of the distances minus one, symbol = "
         "STD_LOGIC_LUT code of the byte; composed with time_step_spec) and cycle_loop_vectors (a whole run of such cycles with their signed "
-        "LEB128 time distances hands the store per cycle its time stamp and that step's trace); add_n_bit_change_entry, "
+        "LEB128 time distances hands the store per cycle its time stamp and that step's trace), cycle_signals_records / "
+        "cycle_loop_records (records of every value type - scalars, enumerations, integers as the 64-bit two's complement of the "
+        "signed LEB128 number, reals as 8 bytes - and a whole cycle section as the abstract run of its cycles); add_n_bit_change_entry, "
         "check_min_state_spec, compress_template_spec (store side of the raw path); snapshot_vectors. The hierarchy reader "
         "(all of ghw/hierarchy.rs: string table, type table, well-known types, hierarchy section, signal tracker) is modelled "
         "(Model/GhwHier.v) and composed with the signal sections into the load of a whole file (Model/GhwFile.v); pinned about it: "
@@ -326,7 +328,7 @@ CLAIMED = {
         "one variable with the name, kind, direction, width and declared range the file gives), header_decode_info_ok / "
         "ghw_file_store_ops (the decode information of the header reader satisfies the premise of the section theorems, so that for a "
         "whole file read_signals_ops and read_signals_time_table hold with no assumption about the header). Not proved: a description of the hierarchy of every "
-        "declaration in terms of its type beyond these clauses, the cycle theorems for the scalar value types. Tie and oracle: the "
+        "declaration in terms of its type beyond these clauses, the composition of the scalar records with the store theorems. Tie and oracle: the "
         "extracted model of the whole loader against wellen on every generated GHW file, the corpus files and truncated / corrupted "
         "headers (harness ghwhier / ghwfile vs model ghwh / ghwf); the extracted section model against "
         "ghw::signals::read_signals (hook with explicit decode information) on generated section bytes (both endians, delta cycles, "
